@@ -62,8 +62,15 @@ NoQ   == <<0, 0>>
 
 Act(op, res, p, n, d) == [op |-> op, res |-> res, p |-> p, n |-> n, d |-> d, why |-> ""]
 
-HdrServer(k) == k \in {"honest", "lighter", "lighterq", "invalid", "cplie", "cfhlie", "cpprev"}
-CFServer(k)  == k \in {"honest", "lighter", "invalid", "cplie", "cfhlie", "cpprev"}
+HdrServer(k) == k \in {"honest", "nonet", "lighter", "lighterq", "invalid", "cplie", "cfhlie", "cpprev"}
+CFServer(k)  == k \in {"honest", "nonet", "lighter", "invalid", "cplie", "cfhlie", "cpprev"}
+\* kind "nonet": follows the honest chain and answers everything truthfully, but its version message does not
+\* advertise NODE_NETWORK (witness and compact-filter bits kept, so OnVersion accepts it): it is a query peer and
+\* announces blocks, but blockmanager.go isSyncCandidate refuses it: handleNewPeerMsg returns before the
+\* getheaders / startSync, startSync never sees it in the candidate list.  It still BECOMES the sync peer when a
+\* reorganisation it sent is accepted (handleHeadersMsg: b.syncPeer = hmsg.peer, whoever that is).
+Truthful(k)  == k \in {"honest", "nonet"}
+Candidate(k) == HdrServer(k) /\ k # "nonet"
 
 LastCP(h) == (h \div CPI) * CPI
 
@@ -80,7 +87,7 @@ ForkH(b1, h1, b2, h2) ==
 \* peer p's chain contains the client's header tip block
 HasHdr(p) == LET c == PChain(p) IN hdrh <= br[c].tip /\ OwnerAt(br, c, hdrh) = hdrb
 
-HonestUp == \E p \in Peers : kind[p] = "honest" /\ ps[p] = "up" /\ HasHdr(p)
+HonestUp == \E p \in Peers : Truthful(kind[p]) /\ ps[p] = "up" /\ HasHdr(p)
 CFUp     == \E p \in Peers : CFServer(kind[p]) /\ ps[p] = "up" /\ HasHdr(p)
 
 \* height peer p announces (version message / later announcements)
@@ -91,13 +98,13 @@ Cur == sp = 0 \/ hdrh >= PTip(sp)
 
 \* startSync: the candidate with the highest announced block, none below ours
 BestCand(up) ==
-  LET c == {p \in Peers : up[p] = "up" /\ HdrServer(kind[p]) /\ PTip(p) >= hdrh}
+  LET c == {p \in Peers : up[p] = "up" /\ Candidate(kind[p]) /\ PTip(p) >= hdrh}
   IN  IF c = {} THEN 0
       ELSE CHOOSE p \in c : \A q \in c : PTip(q) < PTip(p) \/ (PTip(q) = PTip(p) /\ q >= p)
 
 \* what a new peer p does to the sync-peer bookkeeping (handleNewPeerMsg)
 NewPeerSP(p, up) ==
-  IF ~HdrServer(kind[p]) THEN <<sp, ask>>
+  IF ~Candidate(kind[p]) THEN <<sp, ask>>
   ELSE IF sp = 0 THEN <<BestCand(up), ask>>
   ELSE IF Cur /\ PTip(p) > hdrh THEN <<sp, ask \cup {p}>>
   ELSE <<sp, ask>>
@@ -256,8 +263,8 @@ SyncHdr(p) ==
      IN  /\ hdrb' = OwnerAt(br, c, t) /\ hdrh' = t
          /\ flt' = Min(flt, f)
          /\ ffalse' = IF ffalse > Min(flt, f) THEN 0 ELSE ffalse
-         \* a reorganisation makes the sender the sync peer
-         /\ sp' = IF f < hdrh \/ sp = 0 THEN p ELSE sp
+         \* a reorganisation makes the sender the sync peer, sync candidate or not
+         /\ sp' = IF f < hdrh \/ (sp = 0 /\ Candidate(kind[p])) THEN p ELSE sp
   /\ ask' = ask \ {p}
   /\ UNCHANGED <<evars, cfq, dead, nev, phase>>
   /\ Finish(Act("SyncHdr", "ok", p, 0, 0))
@@ -282,7 +289,7 @@ Kick(p) ==
   /\ ps' = [ps EXCEPT ![p] = "down"]
   \* startSync runs on the header tip as it is after this step
   /\ LET up == ps'
-         c  == {q \in Peers : up[q] = "up" /\ HdrServer(kind[q]) /\ PTip(q) >= hdrh'}
+         c  == {q \in Peers : up[q] = "up" /\ Candidate(kind[q]) /\ PTip(q) >= hdrh'}
          bc == IF c = {} THEN 0
                ELSE CHOOSE q \in c : \A r \in c : PTip(r) < PTip(q) \/ (PTip(r) = PTip(q) /\ r >= q)
      IN  /\ sp' = IF sp = p THEN bc ELSE sp
@@ -339,8 +346,8 @@ SyncFlt ==
      THEN IF FixFHReverify
           THEN /\ flt' = hdrh /\ ffalse' = 0
                /\ UNCHANGED <<ps, bn>>
-          ELSE /\ bn' = [p \in Peers |-> bn[p] \/ (kind[p] = "honest" /\ ps[p] = "up")]
-               /\ ps' = [p \in Peers |-> IF kind[p] = "honest" /\ ps[p] = "up" THEN "down" ELSE ps[p]]
+          ELSE /\ bn' = [p \in Peers |-> bn[p] \/ (Truthful(kind[p]) /\ ps[p] = "up")]
+               /\ ps' = [p \in Peers |-> IF Truthful(kind[p]) /\ ps[p] = "up" THEN "down" ELSE ps[p]]
                /\ UNCHANGED <<flt, ffalse>>
      ELSE /\ flt' = hdrh
           /\ ffalse' \in NewFalse(hdrh)
